@@ -65,13 +65,15 @@ class Mix(Scenario):
     """A mix of interactions between a real client and a real server."""
 
     def __init__(self, inters, flavour='tcp', fs=None, alts=('all',), modes=('Q',), monitors_=('delivery',),
-                 name='mix', client_kw=None, server_kw=None, policy='deliver-first'):
+                 name='mix', client_kw=None, server_kw=None, policy='deliver-first', round_robin=False, slow_sender=False):
         self.inters = inters
         self.flavour, self.fs = flavour, fs
         self.monitors = tuple(monitors_)
         self.name = name
         self.params = {'inters': [i.spec() for i in inters], 'flavour': flavour, 'fs': fs, 'alts': list(alts),
-                       'modes': list(modes), 'monitors': list(monitors_), 'policy': policy}
+                       'modes': list(modes), 'monitors': list(monitors_), 'policy': policy, 'round_robin': round_robin, 'slow_sender': slow_sender}
+        self.round_robin = round_robin
+        self.slow_sender = slow_sender
         self.world_kw = {'alts': alts, 'modes': modes, 'policy': policy}
         self.client_kw = client_kw or {}
         self.server_kw = server_kw or {}
@@ -79,7 +81,7 @@ class Mix(Scenario):
     @staticmethod
     def from_params(p, name='mix'):
         return Mix([Inter.from_spec(d) for d in p['inters']], p['flavour'], p['fs'], tuple(p['alts']), tuple(p['modes']),
-                   tuple(p['monitors']), name=name, policy=p.get('policy', 'deliver-first'))
+                   tuple(p['monitors']), name=name, policy=p.get('policy', 'deliver-first'), round_robin=p.get('round_robin', False), slow_sender=p.get('slow_sender', False))
 
     # ------------------------------------------------------------------------------------------------------------
     def setup(self, w):
@@ -129,10 +131,34 @@ class Mix(Scenario):
                                           client_kw=dict(fragment_size_bytes=self.fs, **self.client_kw),
                                           server_kw=dict(fragment_size_bytes=self.fs, **self.server_kw))
         w.objs['client'], w.objs['server'], w.objs['conn'] = client, server, conn
+        if self.slow_sender:
+            # every transport write of both endpoints completes only on an explicit release event, which comes after
+            # the application actions in the default order: send queues grow deep
+            conn.c2s.always_block = True
+            conn.s2c.always_block = True
         for it in self.inters:
             sock = client if it.init == 'c' else server
             side = 'c0' if it.init == 'c' else 's0'
             self._requester_actor(w, it, sock, side)
+        if self.round_robin:
+            w.objs['rr_pending'] = True
+
+    def _merge_publisher_actors(self, w):
+        """Publisher pacing 'alternating': the emission steps of all manual publishers form ONE actor that emits
+        A0, B0, A1, B1, ... so that a slow sender sees frames of two streams interleaved in its queue."""
+        pubs = [a for a in w.actors if a.name.startswith('pub') and a.pc == 0]
+        if len(pubs) < 2:
+            return
+        merged = []
+        for i in range(max(len(a.steps) for a in pubs)):
+            for a in pubs:
+                if i < len(a.steps):
+                    st = a.steps[i]
+                    merged.append(Step(a.name + ':' + st.label, st.fn, st.guard))
+        for a in pubs:
+            w.actors.remove(a)
+        w.add_actor('pubs', merged)
+        w.objs['rr_pending'] = False
 
     def _publisher(self, w, it, side, role, count, ending):
         """Publisher producing `count` elements it.pay(role, i)."""
@@ -157,6 +183,8 @@ class Mix(Scenario):
                 steps.append(Step('error', lambda w: pub.error(RuntimeError('app error ' + it.tag)),
                                   guard=lambda w: pub.subscriber is not None and not pub.cancelled))
             w.add_actor('pub' + it.tag + role, steps)
+            if w.objs.get('rr_pending') and sum(1 for a in w.actors if a.name.startswith('pub')) >= 2:
+                self._merge_publisher_actors(w)
             return pub
 
         if it.pub in ('rx3', 'rx4', 'rx3bp', 'rx4bp'):
